@@ -123,7 +123,7 @@ func c01(c *core.Ctx, r *core.Report) {
 	apGrammarRule(c, r, "R01.apgrammar", "analysis/taint")
 	ensureRule(c, r, "R01.ensure", "analysis/taint", "Visitor.Visit", 8)
 	stopsRule(c, r, "R01.stops", "analysis/taint", 5)
-	edgeLoopRule(c, r, "R01.edgeloop", "analysis/taint", "Visitor.Visit", 8)
+	edgeLoopRule(c, r, "R01.edgeloop", "analysis/taint", "Visitor.Visit", 1)
 	boundsRule(c, r, "R01.bound", func(fn *ssa.Function, rel string) bool { return rel == "analysis/dataflow" || rel == "analysis/taint" },
 		"the guarded summary edge is not created and the flow through it is not reported")
 	memoRule(c, r, "R01.memo", func(fn *ssa.Function, rel string) bool { return rel == "analysis/taint" }, "stale traversal state hides flows")
